@@ -1,10 +1,72 @@
-import Pycoin.Model.VM.Verify
+import Pycoin.Proofs.VMCond
+import Pycoin.Proofs.VMNum
 /-!
-C03M — theorems relating the model of pycoin's VM to the consensus rules (work in progress).
+C03M — the Lean model of pycoin's script VM (`Pycoin.VM`, tied to the code by `harness/props/c03m.py`) against the
+consensus specification `Pycoin.Spec.Consensus` (Bitcoin Core's interpreter, sibling builder).
+Property theorems only; helper lemmas are in `Proofs/VM*.lean`.
 -/
 namespace Pycoin.VM
+open Pycoin.Spec.Consensus CondStack
 
-theorem C03M_condstack_allIfTrue (c : CondStack) : c.allIfTrue = true ↔ c.falseCount = 0 := by
-  simp [CondStack.allIfTrue]
+/-! ## conditional stack -/
+
+/-- pycoin's `(true_count, false_count)` is `absC vfExec`, and `absC` is the abstraction of DESIGN §6:
+lengths of the leading run of `true`s / of what follows, seen from the outermost conditional -/
+theorem C03M_condstack_abs (vf : List Bool) :
+    absC vf = ⟨(vf.reverse.takeWhile id).length, (vf.reverse.dropWhile id).length⟩ := absC_eq_takeWhile vf
+
+/-- `all_if_true()` is Core's `fExec` -/
+theorem C03M_condstack_allIfTrue (vf : List Bool) : (absC vf).allIfTrue = vf.all id := absC_allIfTrue vf
+
+/-- one IF/NOTIF/ELSE/ENDIF: the abstraction commutes, and the error cases (ELSE/ENDIF on an empty stack) coincide -/
+theorem C03M_condstack_step (vf : List Bool) (op : CondOp) :
+    pyStep (absC vf) op = (coreStep vf op).map absC := absC_step vf op
+
+/-- C03.condstack_refines: for **every** sequence of conditional operations, from the empty stack -/
+theorem C03M_condstack_refines (ops : List CondOp) :
+    runPy {} ops = (runCore [] ops).map absC := absC_run [] ops
+
+/-- `check_final_state` accepts exactly the empty `vfExec` -/
+theorem C03M_condstack_final (vf : List Bool) : (absC vf).checkFinalState = .ok () ↔ vf = [] := absC_final vf
+
+#guard runPy {} [.opIf true false, .opIf false false, .opElse, .opEndif] = some ⟨1, 0⟩
+#guard runPy {} [.opElse] = none && runCore [] [.opElse] = none
+
+/-! ## script numbers -/
+
+/-- `int_from_script_bytes(s, False)` = `CScriptNum::set_vch` on inputs of any length -/
+theorem C03M_scriptnum_decode (s : Bytes) : intFromScriptBytes s false = .ok (scriptNumDecode s) :=
+  intFromScriptBytes_false s
+
+/-- with `require_minimal` the code raises exactly when Core's minimal-encoding test fails -/
+theorem C03M_scriptnum_minimal (s : Bytes) :
+    intFromScriptBytes s true =
+      if isMinimalNum s then .ok (scriptNumDecode s) else .error (scriptErr Gen.VM.errno_UNKNOWN_ERROR) :=
+  intFromScriptBytes_true s
+
+/-- where the code applies the 4-byte bound (`pop_check_bounds`: every arithmetic opcode except WITHIN, PICK, ROLL,
+0NOTEQUAL and the CHECKMULTISIG counts), decoding is `CScriptNum(vch, fRequireMinimal, 4)` up to the error tag -/
+theorem C03M_scriptnum_bounded (s : Bytes) (m : Bool) (h : s.length ≤ 4) :
+    (intFromScriptBytes s m).toOption = (scriptNum s m 4).toOption := by
+  have h' : ¬ s.length > 4 := by omega
+  cases m
+  · simp [intFromScriptBytes_false, scriptNum, h', Except.toOption]
+  · rw [intFromScriptBytes_true]
+    simp only [scriptNum, h', if_false, Bool.true_and]
+    cases isMinimalNum s <;> simp [Except.toOption]
+
+/-- `int_to_script_bytes` = `CScriptNum::serialize` -/
+theorem C03M_scriptnum_encode (v : Int) : intToScriptBytes v = scriptNumEncode v := intToScriptBytes_eq v
+
+/-- `bool_from_script_bytes(v)` (the form every opcode but 0NOTEQUAL uses) = `CastToBool` -/
+theorem C03M_castToBool_eq (v : Bytes) : boolFromScriptBytes v false = .ok (castToBool v) := boolFromScriptBytes_false v
+
+/-- `bool_from_script_bytes(v, require_minimal=True)` never returns (§8 row 14): under MINIMALDATA `OP_0NOTEQUAL`
+fails on every operand -/
+theorem C03M_boolMinimal_refuted (v : Bytes) : ∃ e, boolFromScriptBytes v true = .error e := by
+  unfold boolFromScriptBytes
+  cases h : intFromScriptBytes v true with
+  | error e => exact ⟨e, rfl⟩
+  | ok n => exact ⟨_, rfl⟩
 
 end Pycoin.VM
